@@ -94,11 +94,13 @@ CLAIMED = {
     ),
     "C07": (
         "proof",
-        "abstract interpretation of clean_vector/__eq__/__hash__; composition with C04 acceptance facts",
+        "abstract interpretation of clean_vector/__eq__/__hash__ (== also on pairs of constructed objects that differ in one "
+        "metric); composition with C04 acceptance facts",
         "DESIGN.md section 4 C07",
         "clean_vector() is prefix + '/'.join of one guarded field per accepted metric in a constant order, guard = given and not "
         "Not Defined, text = stored pair; mandatory fields always emitted, prefix maps back to the same minor version; == is "
-        "isinstance(own class) and equality of the default clean vectors, hash is hash of the same key.",
+        "isinstance(own class) and equality of the default clean vectors (or semantically: for every metric, two objects that agree "
+        "elsewhere are equal exactly when they give it the same defined value), hash is hash of the same key.",
         "Re-parse equality is a composition argument over C04 facts, not an execution. Trusted: " + TB,
     ),
     "C08": (
